@@ -143,10 +143,30 @@ class fixed_format_file(object):
         fmt = self.specification[linetype][1]
         strs = []
         for val , f in zip(vals , fmt):
-            if (val is not None) and (f[-1] != 'x'): valstr = ('%%%s'%f) % val
+            if (val is not None) and (f[-1] != 'x'):
+                valstr = ('%%%s'%f) % val
+                if len(valstr) > self.spec_width[f[0:-1]] and f[-1] != 's':
+                    valstr = self.fit_value_to_width(val, f)
             else: valstr = ' ' * self.spec_width[f[0:-1]] # blank
             strs.append(valstr)
         return ''.join(strs)
+
+    def fit_value_to_width(self, val, f):
+        """Returns string for a numeric value too wide for its format
+        f. Float values are written with reduced precision; if the
+        value still can't be made to fit in the field width, a
+        ValueError is raised (rather than overwriting the following
+        fields)."""
+        fmt, typ = f[:-1], f[-1]
+        w = self.spec_width[fmt]
+        if typ in ['e', 'f', 'g']:
+            wstr, dot, precstr = fmt.partition('.')
+            prec = int(precstr) if precstr else 6
+            while prec > 0:
+                prec -= 1
+                valstr = ('%%%s.%d%s' % (wstr, prec, typ)) % val
+                if len(valstr) <= w: return valstr
+        raise ValueError("Value %s does not fit in format '%s'." % (repr(val), f))
 
     def read_values(self, linetype):
         """Reads a line from the file, parses it and returns the values."""
